@@ -9,7 +9,16 @@ One `Entry` per (class, configuration).  An entry knows
 * how a tuple of rows becomes the positional arguments of one `add()` call,
 * how a `result()` becomes plain comparable data (`canon`; dict of named
   components so that a mismatch can be attributed to a component),
-* flags: order_carrying, randomized, cheap, empty_batch_ok, row_at_a_time.
+* flags: order_carrying, randomized, cheap, empty_batch_ok, row_at_a_time,
+* its *null rows* (C11): rows that advance a counter / denominator / "seen"
+  component of the state without contributing to its main table, so that a
+  state built from them alone is empty in one component and not in another
+  (texts too short for an n-gram, an all-NaN row, a ranking without a hit, a
+  value outside the histogram range, a zero, ...).  Indices >= len(alphabet)
+  address them in `rows()`; a null row may repeat an alphabet row (1-d NaN,
+  PatternFrequency 'xyz').  Entries without `null_rows` keep no such second
+  component (Counter, samplers, value accumulators, MinMaxAndCount, confusion
+  matrices: every row lands in the one table).
 
 The library is only imported inside the factories; everything that *judges*
 (plain(), diff(), the sampler oracle) is plain Python on lists/dicts/floats.
@@ -172,6 +181,7 @@ class Entry:
   randomized_oracle: Callable[[dict, tuple], list] | None = None
   tol: dict | None = None        # component -> (rtol, atol); default RTOL, ATOL
   offset: bool = False           # large-offset alphabet (C01 only)
+  null_rows: tuple = ()          # counter-only rows (see module docstring)
 
   def _tol(self, comp):
     return (self.tol or {}).get(comp, (RTOL, ATOL))
@@ -202,7 +212,8 @@ class Entry:
     return self.name + (f'({self.sig_tag})' if self.sig_tag else '')
 
   def rows(self, idx):
-    return tuple(self.alphabet[i] for i in idx)
+    pool = self.alphabet + self.null_rows if self.null_rows else self.alphabet
+    return tuple(pool[i] for i in idx)
 
   def drivers(self):
     out = []
@@ -451,14 +462,14 @@ def _build():
       return lambda: getattr(rs(), cls)(**kw)
     add(name=cls, cfg='1d', family='rolling', alphabet=one_d, to_batch=col,
         factory=mk(), aggfn_factory=agg_of(mk()), canon=canon, cheap=True,
-        classify=_has_nan_class)
+        classify=_has_nan_class, null_rows=(NAN,))
     add(name=cls, cfg='2d', family='rolling', alphabet=two_d,
         to_batch=arr2d(2), factory=mk(), aggfn_factory=agg_of(mk()),
-        canon=canon, classify=_has_nan_class)
+        canon=canon, classify=_has_nan_class, null_rows=((NAN, NAN),))
     add(name=cls, cfg='1d,batch_score_fn', family='rolling', alphabet=one_d,
         to_batch=col, factory=mk(batch_score_fn=_score2),
         aggfn_factory=agg_of(mk(batch_score_fn=_score2)), canon=canon,
-        cheap=True, classify=_has_nan_class)
+        cheap=True, classify=_has_nan_class, null_rows=(NAN,))
 
   # ---- MinMaxAndCount (non-negative data: documented as counts) -----------
   def mmc(**kw):
@@ -483,16 +494,17 @@ def _build():
       alphabet=(NAN, 0.5, 2.0, 4.0), to_batch=col,
       factory=hist(range=(0, 4), bins=2),
       aggfn_factory=agg_of(hist(range=(0, 4), bins=2)), cheap=True,
-      empty_batch_ok=True)
+      empty_batch_ok=True, null_rows=(9.0,))
   add(name='Histogram', cfg='edges=(0,1,3,4)', family='rolling',
       alphabet=(0.5, 1.0, 4.0), to_batch=col,
       factory=hist(bins=(0, 1, 3, 4)),
       aggfn_factory=agg_of(hist(bins=(0, 1, 3, 4))), cheap=True,
-      empty_batch_ok=True)
+      empty_batch_ok=True, null_rows=(9.0,))
   add(name='Histogram', cfg='range=(0,4),bins=2,weights', family='rolling',
       alphabet=((0.5, 2.0), (2.0, 0.5), (4.0, 1.0)), to_batch=cols(2),
       factory=hist(range=(0, 4), bins=2),
-      aggfn_factory=agg_of(hist(range=(0, 4), bins=2)), cheap=True)
+      aggfn_factory=agg_of(hist(range=(0, 4), bins=2)), cheap=True,
+      null_rows=((0.5, 0.0), (9.0, 1.0)))
 
   # ---- Counter / samplers / ValueAccumulator ------------------------------
   add(name='Counter', cfg='default', family='rolling',
@@ -548,7 +560,7 @@ def _build():
       return lambda: getattr(rs(), cls)()
     add(name=cls, cfg='default', family='rolling', alphabet=tjur,
         to_batch=cols(2), factory=mk(), aggfn_factory=agg_of(mk()), cheap=True,
-        empty_batch_ok=True)
+        empty_batch_ok=True, null_rows=((1, 0.0), (0, 0.0)))
   for center in (True, False):
     def rr(center=center):
       return lambda: rs().RRegression(center=center)
@@ -556,18 +568,20 @@ def _build():
         alphabet=((1.0, 2.0), (2.0, 1.0), (4.0, 5.0)),
         to_batch=lambda rows: (np.asarray([r[0] for r in rows], dtype=float),
                                np.asarray([r[1] for r in rows], dtype=float)),
-        factory=rr(), aggfn_factory=agg_of(rr()), cheap=True)
+        factory=rr(), aggfn_factory=agg_of(rr()), cheap=True,
+        null_rows=((0.0, 0.0),))
     add(name='RRegression', cfg=f'center={center},x-2d', family='rolling',
         alphabet=(((1.0, 0.0), 2.0), ((2.0, 3.0), 1.0), ((4.0, 1.0), 5.0)),
         to_batch=lambda rows: (
             np.asarray([r[0] for r in rows], dtype=float).reshape(len(rows), 2),
             np.asarray([r[1] for r in rows], dtype=float)),
-        factory=rr(), aggfn_factory=agg_of(rr()))
+        factory=rr(), aggfn_factory=agg_of(rr()),
+        null_rows=(((0.0, 0.0), 0.0),))
   add(name='SymmetricPredictionDifference', cfg='default', family='rolling',
       alphabet=((1.0, 3.0), (0.0, 0.0), (2.0, -2.0)), to_batch=cols(2),
       factory=lambda: rs().SymmetricPredictionDifference(),
       aggfn_factory=agg_of(lambda: rs().SymmetricPredictionDifference()),
-      cheap=True, empty_batch_ok=True)
+      cheap=True, empty_batch_ok=True, null_rows=((0.0, 0.0),))
 
   # ---- helpers (aggregates/utils.py) --------------------------------------
   def ut():
@@ -575,21 +589,25 @@ def _build():
     return utils
   add(name='MeanState', cfg='scalar', family='helpers',
       alphabet=(1.0, 2.0, 4.0), to_batch=col,
-      factory=lambda: ut().MeanState(), cheap=True, empty_batch_ok=True)
+      factory=lambda: ut().MeanState(), cheap=True, empty_batch_ok=True,
+      null_rows=(0.0,))
   add(name='MeanState', cfg='vector', family='helpers',
       alphabet=((1.0, 0.0), (2.0, 2.0), (4.0, 1.0)), to_batch=arr2d(2),
-      factory=lambda: ut().MeanState())
+      factory=lambda: ut().MeanState(), null_rows=((0.0, 0.0),))
   add(name='TupleMeanState', cfg='two-inputs', family='helpers',
       alphabet=((1.0, 8.0), (2.0, 2.0), (4.0, 1.0)), to_batch=cols(2),
-      factory=lambda: ut().TupleMeanState(), cheap=True)
+      factory=lambda: ut().TupleMeanState(), cheap=True,
+      null_rows=((0.0, 0.0),))
 
   def freq_add(s, rows):
-    s.merge(ut().FrequencyState(counter=collections.Counter(rows),
-                                count=len(rows)))
+    # a row None is an item that was reviewed but has no key (null row)
+    s.merge(ut().FrequencyState(
+        counter=collections.Counter(r for r in rows if r is not None),
+        count=len(rows)))
   add(name='FrequencyState', cfg='default', family='helpers',
       alphabet=('a', 'b', 'c'), to_batch=col,
       factory=lambda: ut().FrequencyState(), custom_add=freq_add, cheap=True,
-      empty_batch_ok=True)
+      empty_batch_ok=True, null_rows=(None,))
 
   # ---- classification ------------------------------------------------------
   def cl():
@@ -717,7 +735,7 @@ def _build():
         to_batch=lambda rows: (np.asarray([r[0] for r in rows], dtype=float),
                                np.asarray([r[1] for r in rows], dtype=float)),
         factory=(lambda bins=bins: mc().CalibrationHistogram(bins=bins)),
-        cheap=True)
+        cheap=True, null_rows=((0.0, 0.0),))
 
   # ---- retrieval -------------------------------------------------------------
   def rt():
@@ -733,6 +751,11 @@ def _build():
     lens = {len(r[1]) for r in rows}
     return 'ragged-predictions' if len(lens) > 1 else 'equal-length-predictions'
 
+  # rankings without a single hit: every MeanState count advances, (nearly)
+  # every total stays 0
+  no_hit = {'ragged': ((('c',), ('a', 'b')),),
+            'len3': ((('d',), ('a', 'b', 'c')),)}
+
   def topk(**kw):
     return lambda: rt().TopKRetrieval(**kw)
   for kl in (None, (1,), (1, 2), (1, 3), (2, 5)):
@@ -740,12 +763,13 @@ def _build():
       add(name='TopKRetrieval', cfg=f'k_list={kl},{label}', family='retrieval',
           alphabet=alpha, to_batch=cols_list(2), factory=topk(k_list=kl),
           aggfn_factory=agg_of(topk(k_list=kl)), canon=_canon_dict,
-          per_example=_topk_per_example(kl), classify=ragged_class)
+          per_example=_topk_per_example(kl), classify=ragged_class,
+          null_rows=no_hit[label])
   add(name='TopKRetrieval', cfg='k_list=(1,2),metrics=str,len3',
       family='retrieval', alphabet=len3, to_batch=cols_list(2),
       factory=topk(k_list=(1, 2), metrics='precision'),
       aggfn_factory=agg_of(topk(k_list=(1, 2), metrics='precision')),
-      canon=_canon_dict, classify=ragged_class)
+      canon=_canon_dict, classify=ragged_class, null_rows=no_hit['len3'])
 
   thr_rows = ((('a', 'b'), ('a', 'c', 'b'), (0.9, 0.8, 0.3)),
               (('c',), ('c',), (0.6,)),
@@ -754,7 +778,8 @@ def _build():
     add(name='ThresholdedRetrieval', cfg=f'thresholds={th}', family='retrieval',
         alphabet=thr_rows, to_batch=cols_list(3),
         factory=(lambda th=th: rt().ThresholdedRetrieval(thresholds=th)),
-        canon=_canon_dict)
+        canon=_canon_dict,
+        null_rows=((('a',), ('b',), (0.9,)), (('c',), ('b', 'a'), (0.1, 0.1))))
 
   # ---- text ----------------------------------------------------------------
   def tx():
@@ -765,10 +790,12 @@ def _build():
              dict(k=2, n=1, use_first_ngram_only=True),
              dict(k=2, n=1, count_duplicate=False)):
     label = ','.join(f'{k}={v}' for k, v in kw.items())
+    # texts that are counted but yield no n-gram: fewer than n words, no letter
+    short = ('zz', '7.') if kw['n'] > 1 else ('7.', '')
     add(name='TopKWordNGrams', cfg=label, family='text', alphabet=texts,
         to_batch=col, factory=(lambda kw=kw: tx().TopKWordNGrams(**kw)),
         aggfn_factory=agg_of(lambda kw=kw: tx().TopKWordNGrams(**kw)),
-        empty_batch_ok=True)
+        empty_batch_ok=True, null_rows=short)
   for cd in (True, False):
     add(name='PatternFrequency', cfg=f'count_duplicate={cd}', family='text',
         alphabet=('abab', 'b', 'xyz'), to_batch=col,
@@ -776,7 +803,7 @@ def _build():
             patterns=('ab', 'b'), count_duplicate=cd)),
         aggfn_factory=agg_of(lambda cd=cd: tx().PatternFrequency(
             patterns=('ab', 'b'), count_duplicate=cd)),
-        empty_batch_ok=True)
+        empty_batch_ok=True, null_rows=('xyz',))
   return E
 
 
